@@ -481,7 +481,14 @@ std::vector<double> GridGlobal::getCandidateConstructionPoints(std::function<dou
     // load it now (otherwise it is neither proposed nor ever ejected) and look for the candidates of the larger grid
     int num_loaded_before = points.getNumIndexes();
     loadConstructedTensors();
-    if (points.getNumIndexes() != num_loaded_before) return getCandidateConstructionPoints(getTensorWeight, level_limits);
+    if (points.getNumIndexes() != num_loaded_before){
+        try{
+            return getCandidateConstructionPoints(getTensorWeight, level_limits);
+        }catch(std::runtime_error &){
+            // the one dimensional rule has no more levels (hard-coded or custom table): the samples above stay loaded,
+            // and the next call reports the error before it changes anything
+        }
+    }
 
     return MultiIndexManipulations::getIndexesToNodes(dynamic_values->getNodesIndexes(), wrapper);
 }
